@@ -864,6 +864,8 @@ def run_frames(ctx):
             ctx.record(case, status == "returned")
         if ok_any:
             covered += 1
+    import shutil
+    shutil.rmtree(tmp, ignore_errors=True)
     ctx.notes["frame_callables_covered"] = covered
     ctx.notes["uncovered"] = uncovered
     ctx.notes["raised_on_some_variant"] = raised
